@@ -1,6 +1,6 @@
 /*
- * stubs_cbmc.h - CBMC-only model of snprintf, specialised to the format strings cat.c uses:
- *     "%d" "%u" "%02X" "0x%02X" "0x%04X" "0x%08X"        (one 32-bit argument each)
+ * stubs_cbmc.h - CBMC-only model of snprintf for the format strings cat.c uses:
+ *     "%d" "%u" "%02X" "0x%02X" "0x%04X" "0x%08X"        (one 32-bit argument each; plus %s %c for refactored code)
  * Decimal digits are nondeterministic witnesses constrained by a Horner evaluation (no division),
  * hexadecimal digits are shifts. Any other format string is a failed obligation: a change of the
  * format strings must be noticed, not mis-modelled. Validated against libc by harness k_snprintf.c.
@@ -75,30 +75,73 @@ static int verif_fmt_hex(char *txt, uint32_t v, int width, int prefix)
         return p;
 }
 
+/* a small interpreter for the conversions cat.c uses today (%d %u %02X %04X %08X, literal text) plus %s, %c and
+ * plain %X / %x, so that a refactor which builds a line with one snprintf call is still modelled; anything
+ * else is a failed "snprintf-model" obligation (job inconclusive), never a silent mis-model */
+#define VERIF_SNP_MAX 64
 int verif_snprintf(char *buf, size_t n, const char *fmt, ...)
 {
         va_list ap;
-        char txt[16];
-        int len = 0;
+        char txt[VERIF_SNP_MAX];
+        char piece[16];
+        int len = 0, i, f = 0, plen;
         va_start(ap, fmt);
-        if (fmt[0] == '%' && fmt[1] == 'd' && fmt[2] == 0) {
-                int32_t v = va_arg(ap, int32_t);
-                int64_t w = v;
-                len = verif_fmt_dec(txt, (uint64_t)(w < 0 ? -w : w), w < 0);
-        } else if (fmt[0] == '%' && fmt[1] == 'u' && fmt[2] == 0) {
-                uint32_t v = va_arg(ap, uint32_t);
-                len = verif_fmt_dec(txt, v, 0);
-        } else if (fmt[0] == '%' && fmt[1] == '0' && fmt[2] == '2' && fmt[3] == 'X' && fmt[4] == 0) {
-                uint32_t v = va_arg(ap, uint32_t);
-                len = verif_fmt_hex(txt, v, 2, 0);
-        } else if (fmt[0] == '0' && fmt[1] == 'x' && fmt[2] == '%' && fmt[3] == '0' &&
-                   (fmt[4] == '2' || fmt[4] == '4' || fmt[4] == '8') && fmt[5] == 'X' && fmt[6] == 0) {
-                uint32_t v = va_arg(ap, uint32_t);
-                len = verif_fmt_hex(txt, v, fmt[4] - '0', 1);
-        } else {
-                __CPROVER_assert(0, "snprintf-model: unknown format string (model does not apply)");
-                __CPROVER_assume(0);
+        for (i = 0; i < 12; i++) {
+                char c = fmt[f];
+                if (c == 0)
+                        break;
+                if (c != '%') {
+                        if (len < VERIF_SNP_MAX) txt[len] = c;
+                        len++;
+                        f++;
+                        continue;
+                }
+                f++;
+                {
+                        int width = 0, zero = 0, k;
+                        if (fmt[f] == '0') { zero = 1; f++; }
+                        if (fmt[f] >= '1' && fmt[f] <= '9') { width = fmt[f] - '0'; f++; }
+                        c = fmt[f++];
+                        plen = 0;
+                        if (c == 'd' && !zero && width == 0) {
+                                int32_t v = va_arg(ap, int32_t);
+                                int64_t w = v;
+                                plen = verif_fmt_dec(piece, (uint64_t)(w < 0 ? -w : w), w < 0);
+                        } else if (c == 'u' && !zero && width == 0) {
+                                uint32_t v = va_arg(ap, uint32_t);
+                                plen = verif_fmt_dec(piece, v, 0);
+                        } else if (c == 'X' && (zero || width == 0)) {
+                                uint32_t v = va_arg(ap, uint32_t);
+                                plen = verif_fmt_hex(piece, v, width ? width : 1, 0);
+                        } else if (c == 'c' && !zero && width == 0) {
+                                piece[0] = (char)va_arg(ap, int);
+                                plen = 1;
+                        } else if (c == 's' && !zero && width == 0) {
+                                const char *str = va_arg(ap, const char *);
+                                for (k = 0; k < VERIF_SNP_MAX; k++) {
+                                        if (str[k] == 0)
+                                                break;
+                                        if (len < VERIF_SNP_MAX) txt[len] = str[k];
+                                        len++;
+                                }
+                                __CPROVER_assert(k < VERIF_SNP_MAX, "snprintf-model: %s argument longer than the model handles");
+                                continue;
+                        } else if (c == '%') {
+                                piece[0] = '%';
+                                plen = 1;
+                        } else {
+                                __CPROVER_assert(0, "snprintf-model: unknown conversion (model does not apply)");
+                                __CPROVER_assume(0);
+                        }
+                        for (k = 0; k < 16; k++)
+                                if (k < plen) {
+                                        if (len < VERIF_SNP_MAX) txt[len] = piece[k];
+                                        len++;
+                                }
+                }
         }
+        __CPROVER_assert(fmt[f] == 0, "snprintf-model: format string longer than the model handles");
+        __CPROVER_assert(len <= VERIF_SNP_MAX, "snprintf-model: output longer than the model handles");
         va_end(ap);
         return verif_emit(buf, n, txt, len);
 }
